@@ -48,6 +48,13 @@ class Ob:
         return {k: v for k, v in d.items() if v not in (None, {}, "")}
 
 
+def load_baseline(prop):
+    p = VERIF / "baseline_obligations.json"
+    if not p.exists():
+        return set()
+    return set(json.loads(p.read_text()).get(prop, []))
+
+
 def load_known_findings():
     p = VERIF / "known_findings.json"
     if not p.exists():
@@ -115,6 +122,14 @@ class Report:
         n_viol = 0
         known_hit = []
         replay_dir = VERIF / "replay"
+        baseline = load_baseline(self.prop)
+        for ob in self.obs:
+            # rule (b) of DESIGN section 0: an obligation that is discharged on the unchanged tree and for which
+            # the solver now terminates without a proof (not a resource limit) is reported, without a failing input
+            if ob.verdict == UNDECIDED and ob.id in baseline and str(ob.detail.get("reason", "")).startswith("solver: NOPROOF"):
+                ob.verdict = VIOLATED
+                ob.replayed = False
+                ob.detail["rule"] = "obligation discharged on the unchanged tree (baseline_obligations.json) is no longer provable; solver output attached"
         for ob in self.obs:
             if ob.verdict != VIOLATED:
                 continue
@@ -136,7 +151,7 @@ class Report:
                 "rerun": f"./check {self.prop} --replay {fn.relative_to(VERIF)}",
             }), indent=1))
             tail = "" if ob.replayed else " no-failing-input-found"
-            lines.append(f"VIOLATION property={self.prop} replay={fn.relative_to(VERIF)} obligation={ob.id}{tail}")
+            lines.append((f"VIOLATION property={self.prop} replay={fn.relative_to(VERIF)}{tail}", ob.id))
         printed = set()
         for kf, ob in known_hit:
             key = kf["id"]
@@ -144,12 +159,9 @@ class Report:
                 continue
             printed.add(key)
             print(f"KNOWN-FINDING: property={self.prop} {kf['what']} [obligation {ob.id}]")
-        for l in lines:
-            # the harness wants the line to start with VIOLATION property=<id> replay=<path>
-            parts = l.split(" ")
-            tail = " no-failing-input-found" if l.endswith("no-failing-input-found") else ""
-            print(f"{parts[0]} {parts[1]} {parts[2]}{tail}")
-            print(f"  failed {parts[3]}")
+        for l, oid in lines:
+            print(l)
+            print(f"  failed obligation={oid}")
         undecided = [o for o in self.obs if o.verdict == UNDECIDED]
         n_total = len(self.obs)
         n_ok = sum(1 for o in self.obs if o.verdict in (DISCHARGED, HELD))
